@@ -18,6 +18,17 @@ R17d reference discipline: on no feasible path through the nesting loop (boolean
      tracked along each path) is the indentation reference - the local the next line's indentation is compared with - updated
      after the current line has been flagged (flag true on entry, or set on the path): otherwise a second line with the same
      invalid indentation compares equal and is attached without an error.
+R17e an opener without a body is left before the next line is placed: while an indentation increase is still owed (the
+     pending flag set together with `parent = node`), a non-whitespace line that is not deeper than that opener first moves
+     the parent back to the opener's parent - a statement `parent = parent.parent` at the top of the loop body, guarded by
+     the pending flag and by `node column <= parent column`. Without it the line is attached to the opener it is not inside.
+R17f only an instruction line settles the owed increase: every `pending = False` in the nesting loop is on paths where the
+     line is known not to be a whitespace line (or the flag is already False) - a blank or comment line between an opener and
+     its body must not turn the correctly indented body into an indentation error.
+R17g a line keeps its column whatever its text: every Position built in _parse_line takes its character from the line, never
+     a constant - a line the grammar cannot match is still placed by its own indentation.
+R17h one level is four *spaces*: wherever _parse_line derives the column from leading whitespace, whitespace other than
+     U+0020 is flagged (or the indent group of the grammar matches spaces only).
 Decides these shapes for all method texts; the nesting law of the if/elif chain is value-level.
 """
 from __future__ import annotations
@@ -349,3 +360,178 @@ def run(ctx) -> None:
         ctx.fail("R17c", pl, pl.node, "_parse_line: indentation that is not a multiple of 4 is flagged", "odd indentation is accepted silently")
     if n_partial < 3:
         raise AnchorError(f"only {n_partial} partial operations found in parser.py (floor 3)")
+    _nesting_rules(ctx, pm_, g, lp, node_var, pl, gl)
+
+
+def _nesting_rules(ctx, pm_, g, lp, node_var, pl, gl) -> None:
+    from ..util import local_single_defs, expand_local
+    ctx.rule("R17e", "an opener without a body is left before the next line is placed")
+    ctx.rule("R17f", "only an instruction line settles the owed indentation increase")
+    ctx.rule("R17g", "every Position built in _parse_line takes its column from the line")
+    ctx.rule("R17h", "whitespace other than spaces is not indentation")
+    defs = local_single_defs(pm_)
+    body = lp.ast.body
+    # roles
+    parent_var = None
+    for c in ast.walk(lp.ast):
+        if isinstance(c, ast.Call) and call_attr(c) == "append_child" and isinstance(c.func.value, ast.Name):
+            parent_var = c.func.value.id
+    pending = None
+    for blk in ast.walk(lp.ast):
+        stmts = getattr(blk, "body", None)
+        if not isinstance(stmts, list):
+            continue
+        for a, b in zip(stmts, stmts[1:]):
+            if isinstance(a, ast.Assign) and norm(a) == f"{parent_var} = {node_var}" and isinstance(b, ast.Assign) \
+                    and isinstance(b.value, ast.Constant) and b.value.value is True and isinstance(b.targets[0], ast.Name):
+                pending = b.targets[0].id
+    if parent_var is None or pending is None:
+        raise AnchorError("parse_method: parent / pending-increment locals of the nesting loop not recognised")
+
+    def is_ws(e) -> bool:
+        return "WhitespaceNode" in norm(expand_local(e, defs))
+
+    def atoms(t, pol):
+        """(expr, polarity) atoms known when test t has outcome pol: conjunction when True, disjunction when False."""
+        if isinstance(t, ast.UnaryOp) and isinstance(t.op, ast.Not):
+            return atoms(t.operand, not pol)
+        if isinstance(t, ast.BoolOp) and ((isinstance(t.op, ast.And) and pol) or (isinstance(t.op, ast.Or) and not pol)):
+            out = []
+            for v in t.values:
+                out += atoms(v, pol)
+            return out
+        return [(t, pol)]
+
+    # ---- R17e
+    inst = "parse_method: the parent moves back to the opener's parent when the owed increase does not come"
+    first_append = min((c.lineno for c in ast.walk(lp.ast) if isinstance(c, ast.Call) and call_attr(c) == "append_child"), default=None)
+    found = None
+    why = "no such statement"
+    for st in body:
+        if not isinstance(st, ast.If) or st.lineno > (first_append or 0):
+            continue
+        pops = [x for x in st.body if isinstance(x, ast.Assign) and norm(x) == f"{parent_var} = {parent_var}.parent"]
+        if not pops or st.orelse:
+            continue
+        at = atoms(st.test, True)
+        has_pending = any(isinstance(e, ast.Name) and e.id == pending and pol for e, pol in at)
+        cmp_ok = False
+        for e, pol in at:
+            if isinstance(e, ast.Compare) and len(e.ops) == 1:
+                l, r, op = norm(e.left), norm(e.comparators[0]), e.ops[0]
+                nc, pc = f"{node_var}.position.character", f"{parent_var}.position.character"
+                if (l, r) == (nc, pc) and ((isinstance(op, ast.LtE) and pol) or (isinstance(op, ast.Gt) and not pol)):
+                    cmp_ok = True
+                if (l, r) == (pc, nc) and ((isinstance(op, ast.GtE) and pol) or (isinstance(op, ast.Lt) and not pol)):
+                    cmp_ok = True
+        extra = [norm(e) for e, pol in at if not (isinstance(e, ast.Name) and e.id == pending) and not isinstance(e, ast.Compare)
+                 and not is_ws(e) and "ProgramNode" not in norm(e)]
+        extra += [norm(e) for e, pol in at if isinstance(e, ast.Compare) and f"{node_var}.position.character" not in norm(e)
+                  and ".parent" not in norm(e)]
+        if has_pending and cmp_ok and not extra:
+            found = st
+            break
+        why = f"`if {norm(st.test)[:110]}` does not cover exactly the case 'increase owed and line not deeper than the opener'" + (
+            f" (further conditions: {extra})" if extra else "")
+    if found is not None:
+        ctx.ok("R17e", inst, {"rule": "R17e", "guard": norm(found.test)})
+    else:
+        ctx.fail("R17e", pm_, lp.ast, inst, f"{why}: a line at the column of an opener that has no body (or to its left, or after a "
+                 f"flagged line) is attached to that opener by the unchanged/decreased branches - `Watch: x > 1` / `Mark: a` puts the "
+                 "Mark inside the Watch without an indentation error, and it never runs")
+    # ---- R17f
+    n_reset = 0
+    for n in g.nodes:
+        if n.kind != "stmt" or not isinstance(n.ast, ast.Assign) or norm(n.ast) != f"{pending} = False":
+            continue
+        if not (lp.ast.lineno <= n.lineno <= lp.ast.end_lineno):
+            continue
+        n_reset += 1
+        known = []
+        for t, pol in g.conditions_at(n):
+            known += atoms(t, pol)
+        safe = any((is_ws(e) and not pol) or (isinstance(e, ast.Name) and e.id == pending and not pol) for e, pol in known)
+        inst = f"parse_method: `{pending} = False` at the {_branch_name(g, n)} branch is not reached by a whitespace line"
+        if safe:
+            ctx.ok("R17f", inst)
+        else:
+            ctx.fail("R17f", pm_, n.ast, inst, "a blank or comment line reaches this reset: `Block: A`, an empty line, then the "
+                     "correctly indented body - the body line is flagged as an indentation error because the increase is no "
+                     "longer expected")
+    if n_reset < 3:
+        raise AnchorError(f"parse_method: only {n_reset} resets of the pending-increase flag found (floor 3)")
+    # ---- R17g / R17h
+    line_par = pl.node.args.args[1].arg
+    ldefs = local_single_defs(pl)
+    n_pos = 0
+    derived = {line_par}
+    changed = True
+    while changed:
+        changed = False
+        for st in ast.walk(pl.node):
+            if isinstance(st, ast.Assign) and len(st.targets) == 1 and isinstance(st.targets[0], ast.Name) \
+                    and st.targets[0].id not in derived and any(isinstance(x, ast.Name) and x.id in derived for x in ast.walk(st.value)):
+                derived.add(st.targets[0].id)
+                changed = True
+    for c in ast.walk(pl.node):
+        if isinstance(c, ast.Call) and norm(c.func).endswith("Position"):
+            ch = next((k.value for k in c.keywords if k.arg == "character"), c.args[1] if len(c.args) > 1 else None)
+            if ch is None:
+                continue
+            n_pos += 1
+            e = expand_local(ch, ldefs)
+            dep = any(isinstance(x, ast.Name) and x.id in derived for x in ast.walk(e))
+            # ranges are built from match offsets - those are from the line as well
+            inst = f"_parse_line: Position(character={norm(ch)[:50]}) at line-role {_owner(pl, c)}"
+            if dep and not isinstance(ch, ast.Constant):
+                ctx.ok("R17g", inst)
+            else:
+                ctx.fail("R17g", pl, c, inst, f"the column is `{norm(ch)}` whatever the line's indentation: such a line is attached at "
+                         "column 0, closes the enclosing bodies, and the lines after it are flagged although they are indented correctly")
+    if n_pos < 4:
+        raise AnchorError(f"_parse_line: only {n_pos} Position constructions found (floor 4)")
+    # R17h: every `X.indent_error = True` guarded by a `% 4` test is also guarded (same test, disjunction) by a spaces-only test,
+    # or the grammar's indent group matches spaces only
+    from .. import regexlang as _rl  # noqa: F401
+    spaces_only_grammar = False
+    gcls = ctx.prog.cls(f"{PARSER}:Grammar")
+    for st in gcls.node.body:
+        if isinstance(st, ast.Assign) and norm(st.targets[0]) == "indent_re" and isinstance(st.value, ast.Constant):
+            spaces_only_grammar = "\\s" not in st.value.value and "\\t" not in st.value.value and "." not in st.value.value
+    flags = [n for n in gl.nodes if n.kind == "test" and "% 4" in norm(n.ast)]
+    if not flags:
+        raise AnchorError("_parse_line: no `% 4` indentation test")
+    for n in flags:
+        inst = f"_parse_line: `{norm(n.ast)[:60]}` also flags non-space indentation"
+        has_sp = any(isinstance(x, ast.Call) and call_attr(x) in ("strip", "lstrip", "replace", "count", "startswith") and x.args
+                     and isinstance(x.args[0], ast.Constant) and x.args[0].value == " " for x in ast.walk(n.ast)) \
+            and isinstance(n.ast, ast.BoolOp) and isinstance(n.ast.op, ast.Or)
+        if has_sp or spaces_only_grammar:
+            ctx.ok("R17h", inst)
+        else:
+            ctx.fail("R17h", pl, n.ast, inst, "the column is the number of leading whitespace characters of any kind: four tabs (or four "
+                     "no-break spaces) are taken for one four-space level and the line is nested without an indentation error")
+
+
+def _branch_name(g, n) -> str:
+    conds = g.conditions_at(n)
+    for t, pol in conds:
+        txt = norm(t)
+        if "prev_indent" in txt or "indent_error" in txt or ".position.character" in txt:
+            last = txt
+    try:
+        return f"`{last[:50]}`"
+    except UnboundLocalError:
+        return "top-level"
+
+
+def _owner(pl, c) -> str:
+    pm = parent_map(pl.node)
+    x = c
+    while x in pm:
+        x = pm[x]
+        if isinstance(x, ast.Call) and isinstance(x.func, ast.Attribute) and isinstance(x.func.value, ast.Name) and x.func.value.id == "p":
+            return x.func.attr
+        if isinstance(x, (ast.Assign,)):
+            return norm(x.targets[0])
+    return "?"
